@@ -235,13 +235,22 @@ def real_run(case, enc="endtime", limit=None):
     p = make_plugin(case)
     iters = {"d%d" % i: iter([real_chunk(c, enc) for c in cs]) for i, cs in enumerate(case["deps"])}
     max_results = sum(len(cs) for cs in case["deps"]) + 5
+    import resource
+    import time
+    w0, ru0 = time.time(), resource.getrusage(resource.RUSAGE_SELF)
     try:
         out = _run_timed(p, iters, BASE_LIMIT if limit is None else limit, max_results)
     except _Timeout:          # the signal arrived while the timed region was being left
         out = "TIMEOUT"
     finally:
         _disarm()
-    return {"calls": p.calls, "out": out}
+    res = {"calls": p.calls, "out": out}
+    if out == "TIMEOUT":
+        ru1 = resource.getrusage(resource.RUSAGE_SELF)
+        res["diag"] = "pid %d: wall %.1fs user %.1fs sys %.1fs (limit %.1fs user)" % (
+            os.getpid(), time.time() - w0, ru1.ru_utime - ru0.ru_utime, ru1.ru_stime - ru0.ru_stime,
+            BASE_LIMIT if limit is None else limit)
+    return res
 
 
 def _confirm_child(conn, case, enc, limit):
@@ -362,11 +371,18 @@ class Runner:
 
     def _start(self):
         from concurrent.futures import ProcessPoolExecutor
+        import gc
         try:
+            # keep the children's garbage collector away from the inherited heap (every gc header it
+            # writes to is a copied page)
+            gc.collect()
+            gc.freeze()
             self.ex = ProcessPoolExecutor(self.nproc, mp_context=self.mpctx)
             self.ex.submit(_noop).result()        # with the fork context all workers are started now
         except Exception:  # noqa
             self.ex = None
+        finally:
+            gc.unfreeze()
 
     def close(self):
         if self.ex is not None:
@@ -959,6 +975,8 @@ class Sink:
                          "inconclusive": 0, "confirmations_run": 0}
         self.harness_errors = 0
         self.first_harness_error = None
+        self.timeout_diags = []
+        self.last_diag = None
 
     def append(self, case):
         self.buf.append(case)
@@ -1046,6 +1064,8 @@ class Sink:
         ctx = self.ctx
         t = self.timeouts
         t["first_stage"] += 1
+        if len(self.timeout_diags) < 8:
+            self.timeout_diags.append(self.last_diag)
         if t["confirmations_run"] >= self.MAX_CONFIRMATIONS or t["confirmed_non_termination"] > 0:
             t["inconclusive"] += 1           # not examined further: never an alarm by itself
             return
@@ -1094,6 +1114,7 @@ class Sink:
             if out == "SKIPPED":
                 postponed.append((idx, case, mo))
             elif out == "TIMEOUT":
+                self.last_diag = r.get("diag")
                 self._suspect(case, mo, "endtime" if idx % 2 == 0 else "length")
             elif str(out).startswith("HARNESS-ERROR"):
                 self.harness_errors += 1
@@ -1173,6 +1194,8 @@ def run(ctx):
     ctx.count("iter", sink.total, len(sink.nontriv), sink.dist)
     ctx.coverage["disagreements"] = sink.n_disagree
     ctx.coverage["timeouts"] = sink.timeouts
+    if sink.timeout_diags:
+        ctx.notes.append("first-stage timeouts (suspicions only): " + "; ".join(str(d) for d in sink.timeout_diags))
     ctx.coverage["inconclusive"] = sink.timeouts["inconclusive"] + sink.harness_errors
     ctx.coverage["harness_errors"] = sink.harness_errors
     ctx.notes.append("timing: " + "; ".join(sink.timing))
